@@ -1,3 +1,6 @@
+#[cfg(kani)]
+use crate::verif_shim::regex_model::{Regex, RegexBuilder};
+#[cfg(not(kani))]
 use regex::{Regex, RegexBuilder};
 use std::sync::Arc;
 
@@ -61,6 +64,9 @@ impl LazyRegex {
         match RegexBuilder::new(self.regex.as_str()).case_insensitive(self.ignore_case).build() {
             Ok(regex) => Some(Arc::new(regex)),
             Err(e) => {
+                #[cfg(kani)]
+                let _ = &e;
+                #[cfg(not(kani))]
                 tracing::error!("cannot create regex: {:?}", e);
 
                 None
